@@ -121,8 +121,11 @@ def h_fwd(ctx, sver, dver, blen, fake_rssi, mode='meta'):
                 pres = {k: present(bits, k) for k in keys}
                 anyp = bor(*pres.values())
                 ctx.check('tsc:none-present->0/0', implies(bnot(anyp), band(eq(tsc, 0), eq(code, 0))))
+                cnt = 0
+                for k in keys: cnt = cnt + ite(pres[k], 1, 0)
+                one = eq(cnt, 1)
                 for k in keys:
-                    only = band(pres[k], *[bnot(pres[j]) for j in keys if j != k])
+                    only = band(pres[k], one)         # exactly this training sequence is present
                     ctx.check('tsc:%s%d' % k, implies(only, band(eq(tsc, k[1]), eq(code, 0))))
         for i in range(blen):
             ctx.check('softbit[%d]' % i, eq(o[hdr + i], bits[i] * 254))
